@@ -7,6 +7,7 @@ import (
 	"encoding/hex"
 	"errors"
 	"fmt"
+	"github.com/elastos/Elastos.ELA/utils"
 	"math/rand"
 	"runtime"
 	"sort"
@@ -153,7 +154,7 @@ func newC24Fixture(r *rand.Rand, normal, cand, nProducers int, ties bool) *c24Fi
 	f := &c24Fixture{cfg: cfg, blocks: map[uint32]*types.Block{}, normal: normal, cand: cand,
 		nCRC: len(cfg.DPoSConfiguration.CRCArbiters)}
 	st := &state.State{StateKeyFrame: state.NewStateKeyFrame(), ChainParams: cfg}
-	f.arb = &state.Arbiters{State: st, ChainParams: cfg}
+	f.arb = &state.Arbiters{State: st, ChainParams: cfg, History: utils.NewHistory(720)}
 	f.arb.RegisterFunction(
 		func() uint32 { return 0 },
 		func() *common.Uint256 { return &common.Uint256{} },
